@@ -28,11 +28,14 @@ ASSUMPTIONS = [
     "targets are over ACGT/acgt; 0 <= pos",
     "endpos bounds the start position (the documented 'requested range'), not the end of the match",
 ]
-FLOORS = {"same_object_history_searches": 1000, "search_calls": 2000, "group_calls": 2000, "group_straddling": 50, "group_past_end": 20, "search_wrapped_matches": 50}
+FLOORS = {"same_object_history_searches": 1000, "search_calls": 2000, "group_calls": 2000, "group_straddling": 50, "group_past_end": 20, "search_wrapped_matches": 50, "literal_first_matches": 200}
 MUST_REACH = ["DNARegex.search", "SeqMatch.group"]
 NEEDS_REGISTRIES = True
 BUDGET_S = {"quick": 900, "thorough": 7200}
 KINDS = ["seq-lin", "seq-circ", "rec-lin", "rec-circ", "circrec"]
+# patterns that open with a literal of four or more letters which overlaps itself (as recognition sites in a structure do)
+LITERAL_FIRST = ["ACACA(NN)G", "CGTCTCN(NNNN)", "AAAA(N)C", "GAGAG(N*?)T", "ATATAT(NN)G", "CGCGC(N+)A", "TCTCTC(N)A", "GGTCTCN(NNNN)(N*)",
+                 "CACAC(N)(N)C", "TTTTT(NN)", "GCAGC(N*)GCTGC", "AACAA(S)", "CTCTCN(NN)G"]
 POOL = ["AA(NN)", "(A)(N*)(C)", "(A)(N*?)(C)", "(N)", "(NN)(N)", "A(N(N)N)C", "((A)N*?)(G)", "(N+)(A)", "(N+?)(A)(N*)",
         "(NNN)(NNN)", "C(N*)(NN)A", "(S)(W*)(S)", "G(NNNN)", "(NNNNN)N", "(N)(N)(N)(N)", "A*(C)", "(R+)(Y+)"]
 
@@ -53,6 +56,9 @@ def cases(tier, seed):
     nrand = 3000 if tier == "quick" else 800000
     for j in range(0, nrand, 100):
         out.append({"kind": "random", "seed": seed, "from": j, "count": 100})
+    nlit = 2000 if tier == "quick" else 200000
+    for j in range(0, nlit, 100):
+        out.append({"kind": "literal-first", "seed": seed, "from": j, "count": 100})
     classes = gen.concrete_kit_classes()
     for c in classes:
         out.append({"kind": "kit-instance", "cls": gen.class_name(c), "seed": seed, "count": 2 if tier == "quick" else 40})
@@ -115,6 +121,9 @@ def _target(kind, text):
         return SeqRecord(Seq(text), "x"), {}
     if kind == "rec-circ":
         return SeqRecord(Seq(text), "x"), {"linear": False}
+    if kind == "rec-annotated-linear-circ":
+        # a record whose annotation says linear, searched as non-linear: "any target searched as non-linear" is a circle
+        return SeqRecord(Seq(text), "x", annotations={"topology": "linear"}), {"linear": False}
     return CircularRecord(Seq(text), "x"), {}
 
 
@@ -205,6 +214,30 @@ def execute(mat, ctx):
             if j % 50 == 0:
                 ctx.sample({"kind": "random", "pattern": p, "text": text, "target": tk, "pos": pos, "endpos": endpos,
                             "span": None if m is None else list(m.span(0))})
+    elif kind == "literal-first":
+        for j in range(mat["from"], mat["from"] + mat["count"]):
+            rng = gen.rng_for(mat["seed"], PROP, "literal-first", j)
+            p = rng.choice(LITERAL_FIRST)
+            lit = p[: min(p.index("("), p.index("N") if "N" in p else len(p))]
+            # texts rich in overlapping copies of the literal: runs over its own letters, a few strangers, whole copies pasted in
+            n = rng.randint(len(lit), 26)
+            alpha = "".join(sorted(set(lit))) * 4 + "ACGT"
+            text = gen.rand_dna(rng, n, alpha)
+            for _ in range(rng.randint(0, 2)):
+                i = rng.randrange(len(text))
+                cut = rng.randint(1, len(lit))
+                text = (text[:i] + lit + lit[-cut:] + text[i:])[:30]
+            if rng.random() < 0.2:
+                text = text.lower() if rng.random() < 0.5 else text.swapcase()
+            tk = rng.choice(KINDS + ["rec-annotated-linear-circ"])
+            pos = rng.choice([0, 0, rng.randint(0, len(text))])
+            endpos = rng.choice([None, None, rng.randint(0, len(text) + 2)])
+            m = _do_search(ctx, p, text, tk, pos, endpos)
+            ctx.count("literal_first_searches")
+            if m is not None:
+                ctx.count("literal_first_matches")
+            if j % 100 == 0:
+                ctx.sample({"kind": kind, "pattern": p, "text": text, "target": tk, "pos": pos, "endpos": endpos, "span": None if m is None else list(m.span(0))}, cap=2)
     elif kind == "kit-instance":
         from Bio.Seq import Seq
         from moclo.record import CircularRecord
